@@ -609,7 +609,14 @@ def np_mean(interp, a, axis=None, **kw):
     if axis == 0:
         if A.ndim == 1:
             return np_mean(interp, A)
-        return _maybe_native(to_obj_array([np_mean(interp, A[:, j]) for j in range(A.shape[1])]))
+        if A.shape[0] == 0:
+            raise PyRaise("ValueError", "mean of empty array")
+        out = np.empty(A.shape[1:], dtype=object)
+        flat = out.reshape(-1)
+        cols = A.reshape(A.shape[0], -1)
+        for j in range(cols.shape[1]):
+            flat[j] = truediv(functools.reduce(add, cols[:, j].tolist()), A.shape[0])
+        return _maybe_native(out)
     if axis in (1, -1) and A.ndim == 2:
         return _maybe_native(to_obj_array([np_mean(interp, A[i, :]) for i in range(A.shape[0])]))
     raise Unsupported("mean axis")
@@ -1699,6 +1706,20 @@ def install_numpy_models(interp):
     register_model(np.linalg.inv, n_inv)
     register_model(np.absolute, elementwise(abs))
     register_model(np.dot, lambda interp, a, b, **kw: _decay(np_matmul(to_obj_array(a), to_obj_array(b))) if (to_obj_array(a).ndim and to_obj_array(b).ndim) else mul(a, b))
+
+    def n_pad(interp, arr, pad_width, mode="constant", **kw):
+        if isinstance(arr, SymSeq):
+            pw = pad_width[0] if isinstance(pad_width[0], (tuple, list)) else pad_width
+            before, after = pw
+            if not (not is_sym(before) and before == 0) or mode != "constant":
+                raise Unsupported("np.pad on a symbolic-length array: only zero padding at the end")
+            n = arr.length
+            off = as_int_term(lift(arr.offset))
+            nt = as_int_term(lift(n))
+            new = _lam(lambda j: z3.If(j < nt, z3.Select(arr.arr, off + j), real_const(0)))
+            return SymSeq(new, add(n, after), arr.kind, 0, arr.name)
+        return np.pad(to_obj_array(arr) if contains_sym(arr) else arr, pad_width, mode, **kw)
+    register_model(np.pad, n_pad)
 
     def n_isscalar(interp, x):
         return is_sym(x) or np.isscalar(x)
